@@ -148,10 +148,10 @@ def step (s : MuxSpec) : MuxOp → SpecOut × MuxSpec
   | .add es =>
     if es.elementaryPID ≠ 0 then
       if s.streams.any (·.elementaryPID == es.elementaryPID) then ({ err := some .pidExists }, s)
-      else ({}, { setLast s es.elementaryPID none with streams := s.streams ++ [es], pmtDirty := true })
+      else ({}, { s with streams := s.streams ++ [es], pmtDirty := true })   -- the PID's counter goes on where it stopped
     else
       let pid := autoPID s
-      ({}, { setLast s pid none with streams := s.streams ++ [{ es with elementaryPID := pid }], pmtDirty := true, nextAuto := (pid + 1) % 65536 })
+      ({}, { s with streams := s.streams ++ [{ es with elementaryPID := pid }], pmtDirty := true, nextAuto := (pid + 1) % 65536 })
   | .remove pid =>
     if s.streams.any (·.elementaryPID == pid) then
       ({}, { s with streams := s.streams.filter (·.elementaryPID != pid), pmtDirty := true })
